@@ -149,6 +149,7 @@ type connModel struct {
 	asyncReconnects int
 	giveUp          bool // model lost track (rare ambiguous instants): strict checks stop at giveUpAt
 	giveUpAt        Stamp
+	giveUpWhy       string
 	connReqTx       []Stamp // first transmissions of connect attempts
 }
 
@@ -262,7 +263,7 @@ func buildConnModel(v *tunView) *connModel {
 					// a connect response (a stray or forged one) read in the instant the loop left
 					// its connection: the connect exchange that starts now may take it for its
 					// answer, or the loop may have dropped it - there is no telling
-					m.giveUp, m.giveUpAt = true, v.rx[amb].At
+					m.giveUp, m.giveUpAt, m.giveUpWhy = true, v.rx[amb].At, "connres-as-loop-left"
 					return m
 				}
 				endEpoch(ev.at, "async-reconnect", amb)
@@ -308,15 +309,23 @@ func buildConnModel(v *tunView) *connModel {
 				// a connect response before the client asked (cannot be consumed by a connect
 				// exchange that has not started: it is read and dropped, or consumed an instant
 				// later - ambiguous, stop modelling)
-				m.giveUp, m.giveUpAt = true, x.At
+				m.giveUp, m.giveUpAt, m.giveUpWhy = true, x.At, "connres-before-request"
 				return m
 			}
 			el := x.At.T - attempt.T
-			if el > r.c.T+v.eps {
+			// (only the delays injected while this exchange was under way can move its time-out or
+			// the hand-over of the response: the run's total would make every response of a run
+			// with many stalls "ambiguous")
+			w := r.e.EpsIn(attempt.T, max(x.At.T, attempt.T+r.c.T))
+			if el > r.c.T+w {
 				continue // the exchange has timed out already
 			}
-			if el >= r.c.T-v.eps && x.F.Status != 0x24 && x.F.Status != 0x25 {
-				m.giveUp, m.giveUpAt = true, x.At
+			if el >= r.c.T-w && x.F.Status == 0 && len(m.epochs) == 0 && m.term == nil {
+				// the very first exchange: NewTunnel returned a tunnel (or this oracle would not
+				// run), so the exchange did not time out, and it cannot skip a response
+				r.e.Probe("connres-at-timeout-settled-by-newtunnel")
+			} else if el >= r.c.T-w && x.F.Status != 0x24 && x.F.Status != 0x25 {
+				m.giveUp, m.giveUpAt, m.giveUpWhy = true, x.At, "connres-at-timeout"
 				return m
 			}
 			switch x.F.Status {
@@ -538,7 +547,13 @@ func checkC03(v *tunView, m *connModel) {
 			return true
 		}
 		took := a.at.T
-		if ep := m.epochAt(a.at); ep != nil && ep.StallUntil > took {
+		ep := m.epochAt(a.at)
+		if ep == nil || m.closeInv != nil && a.at.Seq > m.closeInv.Seq {
+			// read outside every connection the model follows (during a reconnect exchange, or after
+			// Close was invoked): when the receive loop gets round to it is not known
+			return true
+		}
+		if ep.StallUntil > took {
 			took = ep.StallUntil
 		}
 		return ret.T-took <= c.R+2*eps
@@ -640,6 +655,58 @@ func checkC03(v *tunView, m *connModel) {
 					e.Violate("C03", "error-ack-not-failing-send", "acknowledgement {ch=%d seq=%d status=%#x} was read at %v while Send id=%d was waiting for exactly that acknowledgement; the Send returned at %v with ok=%v", x.F.Channel, x.F.Seq, x.F.Status, x.At.T, q.call.ID, q.call.Ret.T, q.call.OK)
 				}
 				e.Probe("error-ack-while-waiting")
+			}
+		}
+	}
+	// Acknowledgements for another channel or sequence number are ignored - the matching one is not:
+	// once the receive loop has taken in an acknowledgement with status OK that carries the
+	// connection's channel and the waiting request's number, the Send returns with success in that
+	// instant (it does not go on waiting, retransmit, or time out).
+	if !m.giveUp {
+		for i, x := range v.rx {
+			if !x.F.OK || x.F.Svc != svcTunnelRes || x.F.Status != 0 || m.mode[i] < 0 {
+				continue
+			}
+			ep := m.epochs[m.mode[i]]
+			if x.F.Channel != ep.Channel || x.At.T <= ep.StallUntil+eps {
+				continue
+			}
+			if ep.End.Seq != 0 && ep.End.T <= x.At.T+eps || m.term != nil && m.term.T <= x.At.T+eps || m.closeInv != nil && m.closeInv.T <= x.At.T+eps {
+				continue // the connection is about to go: the Send may be cut short instead
+			}
+			for _, q := range order {
+				if q.ch != x.F.Channel || q.seq != x.F.Seq || q.at[0].Seq > x.At.Seq || q.at[0].Seq < ep.Start.Seq {
+					continue
+				}
+				if q.call.Done && q.call.Ret.T <= x.At.T+eps {
+					continue // not waiting any more (or ending for another reason in this instant)
+				}
+				if x.At.T >= q.at[0].T+c.T-eps {
+					continue // the response timeout may win
+				}
+				earlier := false
+				for _, y := range v.rx {
+					if y.At.Seq >= x.At.Seq {
+						break
+					}
+					if y.At.Seq > q.at[0].Seq && y.F.OK && y.F.Svc == svcTunnelRes && y.F.Channel == q.ch && y.F.Seq == q.seq {
+						earlier = true // an earlier acknowledgement (OK or not) decides
+					}
+				}
+				werr := false
+				for _, y := range v.tx {
+					if y.Werr && y.At.Seq >= q.at[0].Seq && (!q.call.Done || y.At.Seq <= q.call.Ret.Seq) {
+						werr = true // a write that failed while it was waiting may be what ended it
+					}
+				}
+				if earlier || werr {
+					continue
+				}
+				e.Probe("matching-ack-while-waiting")
+				if !q.call.Done || !q.call.OK {
+					e.Violate("C03", "matching-ack-ignored", "acknowledgement {ch=%d seq=%d status=0} was read at %v while Send id=%d (first transmitted %v, response timeout %v) was waiting for exactly that acknowledgement; the Send did not take it (done=%v ok=%v returned %v err=%q)",
+						x.F.Channel, x.F.Seq, x.At.T, q.call.ID, q.at[0].T, c.T, q.call.Done, q.call.OK, q.call.Ret.T, q.call.Err)
+				}
 			}
 		}
 	}
